@@ -38,7 +38,8 @@ ASSUMPTIONS = [
 ]
 MIN_NONTRIVIAL = {'quick': 1000, 'thorough': 30000}
 REQUIRED_MONITORS = ['battery', 'baseline', 'baseline:other-order', 'shadow-cache:compare',
-                     'shadow-cache:stored', 'fresh-object', 'state-audit']
+                     'shadow-cache:stored', 'fresh-object', 'state-audit',
+                     'object-reuse']
 SHARD_TIMEOUT = {'quick': 600, 'thorough': 5400}
 
 PROBE_PLSS = [
@@ -292,7 +293,7 @@ def audit_state(pytrs):
 OPS = ['parse', 'parse-probe-other-cfg', 'master', 'master-toggle-restore',
        'clear', 'usecache', 'warm', 'mutate', 'keep', 'churn', 'mutate-trs',
        'shared-config-with-keywords', 'api-variants',
-       'clear-then-warm-variants']
+       'clear-then-warm-variants', 'object-reuse']
 
 
 def do_step(op, rng, pytrs, kept, ctx, case):
@@ -430,6 +431,54 @@ def do_step(op, rng, pytrs, kept, ctx, case):
         d2.parse(layout=rng.choice(['TRS_desc', 'desc_STR']), commit=False)
         d2.parse(commit=True)
         kept.append(d)
+    elif op == 'object-reuse':
+        # One Tract / one PLSSDesc parsed several times with changing
+        # keywords: each committed parse gives what a fresh object gives
+        # for the same text, config and keywords.
+        desc = rng.choice(['NE, Lots 1, 1, N/2 of Lot 2',
+                           'Lots 3 - 1, NE/4, NE/4, SW',
+                           'S/2N/2NE/4, NW, Lot 1(40.0), Lot 1(39.0)'])
+        c0 = rng.choice([None, 'clean_qq', 'suppress_lot_divs', 'qq_depth.1',
+                         'break_halves,qq_depth_min.3'])
+        plss = rng.random() < 0.4
+        text = f"T154N-R97W Sec 14: {desc}, less and except the well" \
+            if plss else desc
+
+        def make():
+            return (P(text, config=c0) if plss
+                    else T(text, trs='154n97w14', config=c0))
+
+        def snap(o):
+            ts = o.tracts if plss else [o]
+            return json.loads(json.dumps(
+                [[t.lots, t.qqs, t.pp_desc, sorted(t.w_flags),
+                  sorted(t.e_flags), sorted(t.lot_acres.items())]
+                 for t in ts], default=str))
+        obj = make()
+        for k in range(rng.randint(2, 5)):
+            kw = {}
+            for name, vals in (('clean_qq', [True, False]),
+                               ('suppress_lot_divs', [True, False]),
+                               ('qq_depth', [1, 3]), ('break_halves', [True])):
+                if rng.random() < 0.4 and not (plss and name == 'suppress_lot_divs'):
+                    kw[name] = rng.choice(vals)
+            if plss:
+                kw['parse_qq'] = True
+            obj.parse(**kw)
+            fresh = make()
+            fresh.parse(**kw)
+            ctx.hit('object-reuse')
+            a, b = snap(obj), snap(fresh)
+            if a != b:
+                i, x, y = first_diff(a, b)
+                ctx.violation(
+                    'result-depends-on-object-history', case,
+                    f"parse #{k + 1} ({kw}) of a re-used "
+                    f"{'PLSSDesc' if plss else 'Tract'} ({text!r}, config "
+                    f"{c0!r}) gives {short(repr(x), 200)}, a fresh object "
+                    f"gives {short(repr(y), 200)}",
+                    dedup=f"reuse|{plss}")
+                break
     elif op == 'api-variants':
         for txt in ("TlS4N-RIOOW Sec 14: NE/4", "T154-R97 Sec 1"):
             pytrs.find_twprge(txt)
